@@ -306,7 +306,8 @@ def svds_scipy(data, meta, sizes, thresh=None, solver='arpack', **kwargs):
         # Is block too small for iterative svd ?
         # TODO user defined threshold
         # the second condition is heuristic estimate when performing dense svd should be faster.
-        if (k < min(D) - 1 and D[0] * D[1] > 5000) or (not(thresh is None) and min(D)*thresh > k):
+        # ARPACK needs k + 1 < ncv <= min(D) - 1 (complex data), hence k < min(D) - 2
+        if (k < min(D) - 2 and D[0] * D[1] > 5000) or (not(thresh is None) and min(D)*thresh > k):
             if solver == 'arpack':
                 try:
                     U, S, V = scipy.sparse.linalg.svds(data[slice(*sl)].reshape(D), k=k, ncv=min(5 * k, min(D) - 1),
